@@ -15,7 +15,7 @@ accepted it, and unsupported constructs surface as Err, not as a panic.
       of the iteration that continues parsing."""
 import re
 from registry import RuleResult
-from heval import Evaluator, Policy, EvalError, sym, show, syms_of, subterms
+from heval import local_policy, Evaluator, Policy, EvalError, sym, show, syms_of, subterms
 
 MP = 'module::Module::parse'
 LFP = 'module::functions::local_function::LocalFunction::parse'
@@ -60,7 +60,7 @@ def v1(F, res):
     if MP not in F.hir:
         res.error('anchor lost: Module::parse')
         return
-    ws = Evaluator(F, NOPOL).run_fn(MP, [sym('wasm'), sym('config')])
+    ws = Evaluator(F, local_policy(F, MP, public_events=True)).run_fn(MP, [sym('wasm'), sym('config')])
     pv = F.adt('wasmparser::Payload')
     all_variants = [v['name'] for v in pv['variants']] if pv else []
     seen = {}
@@ -160,7 +160,7 @@ def v2(F, res):
         res.error('anchor lost: LocalFunction::parse')
         return
     args = [sym(n) for n in ('module', 'indices', 'id', 'ty', 'args', 'body', 'on_instr_pos', 'validator')]
-    ws = Evaluator(F, NOPOL).run_fn(LFP, args)
+    ws = Evaluator(F, local_policy(F, LFP, public_events=True, events=[r'append_instruction$']), max_worlds=20000).run_fn(LFP, args)
     okk = 0
     for w in ws:
         if w.outcome != 'return':
@@ -198,7 +198,7 @@ def v3(F, res):
     if len(c) != 1:
         res.error('anchor lost: parse_local_functions')
         return
-    ws = Evaluator(F, NOPOL).run_fn(c[0], [sym('self'), sym('functions'), sym('indices'), sym('on_instr_pos')])
+    ws = Evaluator(F, local_policy(F, c[0], public_events=True)).run_fn(c[0], [sym('self'), sym('functions'), sym('indices'), sym('on_instr_pos')])
     n_ok = 0
     for w in ws:
         tr = [e for e in w.trace if e['kind'] in ('call', 'try', 'try_fail')]
